@@ -123,6 +123,9 @@ def c02(ctx):
                 "independent API families and compared with the spec's abstract value; (b) every accepted text of the JsonEnum "
                 "enumeration (white-space layouts, every token kind) compared with the value the recogniser's semantic actions denote; "
                 "V: documents generated by construction, all readers vs the constructed value, and the recorded value checked by TLC. "
+                "IterMachine.tla: every navigation call as a machine over raw tape words; M: every walk ends within the tape length on EVERY "
+                "tape of the alphabet (well formed or not); G: each tape is laid out as a real ParsedJson and every call's result and iterator "
+                "position compared (a deviation counts on tapes that no call refuses). "
                 "Non-trivial = a document with at least one container member (tape longer than 6 words) or an accepted enumeration text.")
     edit_replay(ctx, "parse_q" if quick(ctx) else "parse_t", "C02")
     for name in ("struct", "str"):
@@ -133,6 +136,11 @@ def c02(ctx):
                 "-expect", str(r["distinct"]), "-seed", str(ctx.seed), "-padsample", "1000000"], timeout=7200)
         os.remove(r["dump"])
     record_and_validate_text(ctx, "C02", False, 300 if quick(ctx) else 5000, 200000 if quick(ctx) else 3000000)
+    # the navigation layer itself: IterMachine.tla (Advance / AdvanceInto / AdvanceIter / PeekNext / Root / Object+NextElementBytes /
+    # Array.Iter as a machine over raw tape words) on every small tape, replayed call by call with iterator positions compared
+    r = ctx.tlc("MC_IterMachine", consts={"MaxWords": 2 if quick(ctx) else 3}, dump="states", label="iterator machine on raw tapes", timeout=3000)
+    ctx.vh(["g-iter", "-dump", r["dump"], "-expect", str(r["distinct"]), "-property", "C02"], timeout=3000)
+    os.remove(r["dump"])
     # every token kind exactly on the index-buffer seams, scope depth around 128 and beyond, sizes around the 8 KiB threshold
     ctx.vh(["v-seams", "-seed", str(ctx.seed), "-property", "C02"] + ([] if quick(ctx) else ["-full"]), timeout=3000)
     ctx.exhaustive = True
